@@ -165,6 +165,26 @@ func newCheck(prop, tier string, seed int64) *Check {
 	return c
 }
 
+// tiers in which a check enumerates only a sample of its module's finite space (modular filters
+// in the Next relation, every n-th program, a subset of cancellation points)
+var sampledTiers = map[string][]string{
+	"C01": {"quick"},
+	"C02": {"quick"},
+	"C03": {"quick"},
+	"C04": {"quick"},
+	"C05": {"quick"},
+	"C07": {"quick", "thorough"},
+	"C08": {"quick", "thorough"},
+	"C09": {"quick"},
+	"C12": {"quick"},
+	"C13": {"thorough"},
+	"C16": {"quick"},
+	"C17": {"quick"},
+	"C18": {"quick"},
+	"C19": {"quick", "thorough"},
+	"C20": {"quick", "thorough"},
+}
+
 func (c *Check) addTLC(r *tlcResult) {
 	c.mu.Lock()
 	defer c.mu.Unlock()
@@ -255,6 +275,11 @@ func (c *Check) finish() int {
 			if f.ID == id {
 				fmt.Printf("\nKNOWN-FINDING: property=%s %s (%d cases; %s)\n", f.Property, f.ID, c.knownHits[id], f.What)
 			}
+		}
+	}
+	for _, t := range sampledTiers[c.Prop] {
+		if t == c.Tier {
+			c.exhaustive = false
 		}
 	}
 	cov := map[string]interface{}{
